@@ -30,7 +30,7 @@ pub fn def11() -> PropDef {
     PropDef {
         info: PropInfo {
             id: "C11",
-            rule: "the C02 probe generator restricted to the regions Cranelift knows {packet, metadata buffer, 512-byte stack} on the metadata VM (metadata buffer present or empty, packet empty or not), same boundary windows (incl. packet and metadata buffer only 1-7 bytes apart, and a narrower priming access through the same register and offset in the same basic block), null, top-of-address-space and wrap-around addresses. Each probe is compiled with Cranelift and executed in its own forked child. Oracle: in bounds => the child returns the exact loaded value / the stored bytes are exactly the expected ones; out of bounds => the child is terminated by SIGILL (the trap) and no byte of packet, metadata or the surrounding canary bytes changed; a normal return, SIGSEGV/SIGBUS, or a changed byte is a violation. Non-trivial = effective address within 9 bytes of a region boundary, or wrapped; distinct by hash of layout+probe.",
+            rule: "the C02 probe generator restricted to the regions Cranelift knows {packet, metadata buffer, 512-byte stack} on the metadata VM (metadata buffer present or empty, packet empty or not), same boundary windows (incl. packet and metadata buffer only 1-7 bytes apart, a narrower priming access through the same register and offset, and up to four in-bounds loads through the same register at other offsets - into whichever regions the 16-bit offset reaches - in the same basic block), null, top-of-address-space and wrap-around addresses. Each probe is compiled with Cranelift and executed in its own forked child. Oracle: in bounds => the child returns the exact loaded value / the stored bytes are exactly the expected ones; out of bounds => the child is terminated by SIGILL (the trap) and no byte of packet, metadata or the surrounding canary bytes changed; a normal return, SIGSEGV/SIGBUS, or a changed byte is a violation. Non-trivial = effective address within 9 bytes of a region boundary, or wrapped; distinct by hash of layout+probe.",
             assumptions: &["a Cranelift trap surfaces as SIGILL (ud2) in the child", "guard pages make an out-of-region read fault; a returned value proves that a read was performed"],
         },
         run: run11,
@@ -86,6 +86,10 @@ pub struct Probe {
     /// 0 = none; otherwise a narrower access through the same register and offset is executed
     /// first (bit 0: store instead of load; bits 1-2: its width 1/2/4)
     prime: u8,
+    /// in-bounds byte loads through the same base register (other offsets, any region that the
+    /// 16-bit offset can reach) executed before the probe, in the same basic block:
+    /// (region selector, position inside the region)
+    warm: Vec<(u8, u8)>,
 }
 
 fn layout(with_ranges: bool) -> impl Strategy<Value = Layout> {
@@ -106,8 +110,8 @@ fn probe(nregions: u8, cranelift: bool) -> impl Strategy<Value = Probe> {
         1 => prop_oneof![Just(0u64), Just(1u64), (0u64..16).prop_map(|k| u64::MAX - k), any::<u64>().prop_map(|x| x | (1 << 62)), Just(4096u64), Just(8u64)].prop_map(Target::Abs),
         1 => (0u8..16, 0u8..32).prop_map(|(back, off)| Target::Wrap { back, off }),
     ];
-    (prop::sample::select(kinds), prop::sample::select(vec![1u8, 2, 4, 8]), target, prop_oneof![1 => Just(0i16), 2 => any::<i16>(), 1 => -64i16..64], crate::gen::interesting_u64(), prop_oneof![3 => Just(0u8), 1 => 1u8..8])
-        .prop_map(|(kind, width, target, split, val, prime)| Probe { kind, width, target, split, val, prime })
+    (prop::sample::select(kinds), prop::sample::select(vec![1u8, 2, 4, 8]), target, prop_oneof![1 => Just(0i16), 2 => any::<i16>(), 1 => -64i16..64], crate::gen::interesting_u64(), prop_oneof![3 => Just(0u8), 1 => 1u8..8], prop_oneof![1 => Just(vec![]).boxed(), 1 => prop::collection::vec((any::<u8>(), any::<u8>()), 1..5).boxed()])
+        .prop_map(|(kind, width, target, split, val, prime, warm)| Probe { kind, width, target, split, val, prime, warm })
 }
 
 pub fn case_strategy(with_ranges: bool, cranelift: bool) -> impl Strategy<Value = (Layout, Probe)> {
@@ -294,6 +298,23 @@ fn build(p: &Probe, r: &Regions, ld_base: u64) -> Option<Built> {
                     out.push(Insn::new(alu_opc(true, ALU_ADD, false), 1, 0, 0, (d - off as i64) as i32));
                 }
                 _ => return None,
+            }
+            // optional in-bounds loads through the same register at other offsets first
+            for (rsel, psel) in &p.warm {
+                let o: i64 = match (ea, stack_delta) {
+                    (Some(ea), _) => {
+                        let (s, l) = r.regs[*rsel as usize % r.regs.len()];
+                        if l == 0 {
+                            continue;
+                        }
+                        (s + ((*psel as u64 * l) >> 8)).wrapping_sub(ea.wrapping_sub(off as i64 as u64)) as i64
+                    }
+                    (None, Some(d)) => -1 - ((*psel as i64 * 512) >> 8) - (d - off as i64),
+                    _ => continue,
+                };
+                if o >= i16::MIN as i64 && o <= i16::MAX as i64 {
+                    out.push(Insn::new(ldx_opc(1), 3, 1, o as i16, 0));
+                }
             }
             // optional narrower access through the same register and offset first
             if p.prime != 0 {
@@ -614,7 +635,7 @@ fn case_json(l: &Layout, p: &Probe) -> Value {
     json!({
         "layout": {"pkt_len": l.pkt_len, "pkt_at_end": l.pkt_at_end, "mbuff_len": l.mbuff_len, "mbuff_at_end": l.mbuff_at_end, "ranges": l.ranges, "fill": l.fill, "mbuff_gap": l.mbuff_gap},
         "probe": {
-            "kind": format!("{:?}", p.kind), "width": p.width, "split": p.split, "val": p.val.to_string(), "prime": p.prime,
+            "kind": format!("{:?}", p.kind), "width": p.width, "split": p.split, "val": p.val.to_string(), "prime": p.prime, "warm": p.warm.iter().map(|(a, b)| json!([a, b])).collect::<Vec<_>>(),
             "target": match &p.target {
                 Target::Edge { region, end, delta } => json!({"edge": [region, end, delta]}),
                 Target::Stack { delta } => json!({"stack": delta}),
@@ -656,7 +677,7 @@ fn case_from_json(v: &Value) -> Option<(Layout, Probe)> {
         let w = t["wrap"].as_array()?;
         Target::Wrap { back: w[0].as_u64()? as u8, off: w[1].as_u64()? as u8 }
     };
-    Some((l, Probe { kind, width: pj["width"].as_u64()? as u8, target, split: pj["split"].as_i64()? as i16, val: pj["val"].as_str()?.parse().ok()?, prime: pj["prime"].as_u64().unwrap_or(0) as u8 }))
+    Some((l, Probe { kind, width: pj["width"].as_u64()? as u8, target, split: pj["split"].as_i64()? as i16, val: pj["val"].as_str()?.parse().ok()?, prime: pj["prime"].as_u64().unwrap_or(0) as u8, warm: pj["warm"].as_array().map(|a| a.iter().map(|x| (x[0].as_u64().unwrap_or(0) as u8, x[1].as_u64().unwrap_or(0) as u8)).collect()).unwrap_or_default() }))
 }
 
 fn account(st: &mut Stats, l: &Layout, p: &Probe, allowed: bool, near: bool, v: &Verdict) {
@@ -688,6 +709,12 @@ fn account(st: &mut Stats, l: &Layout, p: &Probe, allowed: bool, near: bool, v: 
     };
     st.class(&format!("{region}:{}", if allowed { "allowed" } else { "refused" }));
     st.class(&format!("{:?}/{}", p.kind, p.width));
+    if !p.warm.is_empty() && !matches!(p.kind, Kind2::LdAbs | Kind2::LdInd) {
+        st.class(if allowed { "after-warm-up-loads:allowed" } else { "after-warm-up-loads:refused" });
+        if l.mbuff_gap > 0 && l.pkt_len > 0 && l.mbuff_len > 0 && !allowed {
+            st.class("after-warm-up-loads:refused:adjacent-regions");
+        }
+    }
     if near {
         st.nontrivial(fnv_str(&format!("{l:?}{p:?}")));
     }
@@ -731,7 +758,7 @@ fn drive(ctx: &Ctx, eng: Eng, quick: u64, thorough: u64) {
                                 if n % ctx.nworkers as u64 != ctx.worker as u64 {
                                     continue;
                                 }
-                                let p = Probe { kind, width, target: Target::Edge { region, end, delta }, split: (n % 7) as i16 * 3 - 9, val: 0x0102_0304_0506_0708u64.wrapping_mul(n | 1), prime: if n % 3 == 0 { (n % 8) as u8 } else { 0 } };
+                                let p = Probe { kind, width, target: Target::Edge { region, end, delta }, split: (n % 7) as i16 * 3 - 9, val: 0x0102_0304_0506_0708u64.wrapping_mul(n | 1), prime: if n % 3 == 0 { (n % 8) as u8 } else { 0 }, warm: vec![] };
                                 let (v, allowed, near) = run_probe(&mem.borrow(), &l, &p, eng);
                                 count += 1;
                                 let fail = v.is_fail();
@@ -756,7 +783,7 @@ fn drive(ctx: &Ctx, eng: Eng, quick: u64, thorough: u64) {
                         if n % ctx.nworkers as u64 != ctx.worker as u64 || (delta > -500 && delta < -12 && n % 8 != 0) {
                             continue;
                         }
-                        let p = Probe { kind, width, target: Target::Stack { delta }, split: (n % 5) as i16 * 4 - 8, val: n, prime: 0 };
+                        let p = Probe { kind, width, target: Target::Stack { delta }, split: (n % 5) as i16 * 4 - 8, val: n, prime: 0, warm: vec![] };
                         let (v, allowed, near) = run_probe(&mem.borrow(), &l, &p, eng);
                         count += 1;
                         let fail = v.is_fail();
